@@ -838,7 +838,10 @@ fn multi_case(u: &mut Choices, sz: Size) -> CaseResult {
     if sz.alt_case {
         add_case_families(u, &mut doc);
     }
-    let file = gen_wide_file(u, &doc, sz, false);
+    let mut file = gen_wide_file(u, &doc, sz, false);
+    if u.chance(1, 4) {
+        add_capture_idiom(u, &mut file, &doc);
+    }
     let text = print_file(&file);
     let n = u.range(2, 3);
     let mut docs = vec![doc.to_json()];
